@@ -785,7 +785,14 @@ func runC07(ctx *report.Ctx) {
 	}
 	restoreExplore(ctx, "SR0", sr0, noVars, b0)
 	hostSnapshots(ctx, c07Scripts(false), noVars, report.Pick(ctx, 2, 4), report.Pick(ctx, 5, 7))
-	restoreExplore(ctx, "SR", c07Scripts(true), c07Host, b)
+	sr := c07Scripts(true)
+	if ctx.Quick() {
+		// the quick tier runs the scripts with failing statements and the padded title with smaller bounds
+		restoreExplore(ctx, "SR", append(append([]*yc.Program{}, sr[:5]...), sr[7]), c07Host, b)
+		restoreExplore(ctx, "SR-faults", sr[5:7], c07Host, c07Bounds{pre: 4, mid: 0, recv: 2, cont: 3})
+	} else {
+		restoreExplore(ctx, "SR", sr, c07Host, b)
+	}
 	// SRK: the host keeps its save value and restores from that very value every time, also a second time after the
 	// dialogue has left the node and come back to it (scripts with loops)
 	all := c07Scripts(true)
